@@ -16,6 +16,7 @@ CONSTANTS
   VarVals <- VarValsStd
   MaxOverlay = 0
   TRSets <- NoTR
+  FalsyOverlays = FALSE
   MaxFaults = 1
 INVARIANT R1_Faults
 INVARIANT EmitF
